@@ -428,14 +428,23 @@ def guard_inventory(repo: Repo, R, noret):
     G(fes, "slice-parent-signal", lambda t: _norm(t) == f"not isinstance({fes.node.args.args[0].arg}.parent, Signal)", "slice whose parent is not a concrete signal", "a nested slice is exported against the wrong signal")
     G(fes, "slice-unit-step", lambda t: au.cmp_norm(t) == au.cmp_norm(ast.parse(f"{fes.node.args.args[0].arg}.step != 1", mode="eval").body), "slice with non-unit step", "a strided or reversed slice is exported as a contiguous forward range")
     fct = repo.func(F_EXPORT, "export_connection_target")
+    # a connection that is none of Signal / Slice / Concat reaches a raise (whatever the shape of the dispatch)
+    from . import shared
+
+    sv = fct.node.args.args[0].arg
     cur = None
+    unknown_raises = False
+    for r in shared.raising_leaves(fct.node, noret):
+        if shared.admissible_kinds(fct.node, r, sv, {"Signal", "Slice", "Concat"}) == {"<other>"}:
+            unknown_raises = True
+    handled = set()
     for n in au.walk_no_nested(fct.node):
-        if isinstance(n, ast.If) and _norm(n.test).startswith("isinstance(sig, Signal)"):
-            cur = n
-            while len(cur.orelse) == 1 and isinstance(cur.orelse[0], ast.If):
-                cur = cur.orelse[0]
-    R.check(cur is not None and au.raises(cur.orelse, noret), rule, key_of(fct, "unknown-connection-kind"), fct.site,
-            "a connection that is neither Signal, Slice nor Concat raises" if cur is not None and au.raises(cur.orelse, noret) else "unknown connection kinds do not raise in export_connection_target",
+        if isinstance(n, (ast.Return, ast.Assign, ast.Expr)) and not isinstance(getattr(n, "value", None), ast.Constant):
+            adm = shared.admissible_kinds(fct.node, n, sv, {"Signal", "Slice", "Concat"})
+            if len(adm) == 1:
+                handled |= adm
+    R.check(unknown_raises and {"Signal", "Slice", "Concat"} <= handled, rule, key_of(fct, "unknown-connection-kind"), fct.site,
+            "a connection that is neither Signal, Slice nor Concat raises" if unknown_raises else "unknown connection kinds do not raise in export_connection_target",
             why="an unresolved reference / bundle / no-connect is exported as an empty connection target")
     fei = repo.func(F_EXPORT, "ProtoExporter.export_instance")
     # elaborate is part of to_proto
